@@ -12,7 +12,8 @@ open Model
 
 /-- The splitter has the shape the model assumes, both in the single loader and in the group. -/
 theorem source_structure :
-    Gen.splitterComplementary = true ∧ Gen.splitLoopLoader = true ∧ Gen.splitLoopGroup = true := by
+    Gen.splitterComplementary = true ∧ Gen.splitLoopLoader = true ∧ Gen.splitLoopGroup = true
+    ∧ Gen.averageIsPlainMean = true := by
   decide
 
 /-! ## batch average = count-weighted mean -/
